@@ -124,6 +124,23 @@ static void h_tagged_tuple_cmp(const vcase *c) {
     if (r == 0) r = (la > lb) - (la < lb);
     out_i64("cmp", sgn(r));
     out_hex("ka", ka, la); out_hex("kb", kb, lb);
+    /* the same key assembled in the opposite field order (offsets from
+     * varintTaggedLen), and a field rewritten in place: the bytes of a key
+     * must not depend on the order in which its fields are written */
+    {
+        uint8_t *rev = calloc(na * 9 + 16, 1);
+        size_t *off = malloc((na + 1) * sizeof(size_t));
+        off[0] = 0;
+        for (size_t i = 0; i < na; i++) off[i + 1] = off[i] + varintTaggedLen(a[i]);
+        for (size_t i = na; i-- > 0;) varintTaggedPut64(rev + off[i], a[i]);
+        int same = off[na] == la && memcmp(rev, ka, la) == 0;
+        if (same && na > 1) { /* rewrite field 0 in place (same value) */
+            varintTaggedPut64(rev, a[0]);
+            same = memcmp(rev, ka, la) == 0;
+        }
+        out_str("rev", same ? "same" : "diff");
+        free(rev); free(off);
+    }
     free(a); free(b); free(ka); free(kb);
 }
 
